@@ -138,6 +138,65 @@ func genCase(t *rapid.T) copyx.Case {
 	return c
 }
 
+// genDiamond: a root index over 2-4 parents that all share one node (a layer, or a
+// whole image), every parent with a few nodes of its own; one fault on the shared
+// node or on something below it; heavy latency. The shape in which one parent owns
+// the failing node while the others wait for it.
+func genDiamond(t *rapid.T) copyx.Case {
+	var specs []gen.NodeSpec
+	blob := func(size int) int {
+		specs = append(specs, gen.NodeSpec{Kind: gen.KBlob, Seed: 200 + len(specs), Size: size, MT: "application/octet-stream"})
+		return len(specs) - 1
+	}
+	sharedIsManifest := rapid.Bool().Draw(t, "sharedIsManifest")
+	var shared, below int
+	if sharedIsManifest {
+		cfg := blob(7)
+		below = blob(rapid.IntRange(1, 40).Draw(t, "belowSize"))
+		specs = append(specs, gen.NodeSpec{Kind: gen.KImage, Config: &gen.Ref{N: cfg}, Layers: []gen.Ref{{N: below}}})
+		shared = len(specs) - 1
+	} else {
+		shared = blob(rapid.IntRange(1, 40).Draw(t, "sharedSize"))
+		below = shared
+	}
+	k := rapid.IntRange(2, 4).Draw(t, "parents")
+	var parents []gen.Ref
+	for i := 0; i < k; i++ {
+		own := rapid.IntRange(0, 3).Draw(t, "own")
+		if sharedIsManifest {
+			var kids []gen.Ref
+			for j := 0; j < own; j++ {
+				cfg := blob(5)
+				specs = append(specs, gen.NodeSpec{Kind: gen.KImage, Config: &gen.Ref{N: cfg}})
+				kids = append(kids, gen.Ref{N: len(specs) - 1})
+			}
+			pos := rapid.IntRange(0, len(kids)).Draw(t, "sharedPos")
+			kids = append(kids[:pos], append([]gen.Ref{{N: shared}}, kids[pos:]...)...)
+			specs = append(specs, gen.NodeSpec{Kind: gen.KIndex, Layers: kids})
+		} else {
+			cfg := blob(6)
+			var layers []gen.Ref
+			for j := 0; j < own; j++ {
+				layers = append(layers, gen.Ref{N: blob(rapid.IntRange(1, 30).Draw(t, "ownSize"))})
+			}
+			pos := rapid.IntRange(0, len(layers)).Draw(t, "sharedPos")
+			layers = append(layers[:pos], append([]gen.Ref{{N: shared}}, layers[pos:]...)...)
+			specs = append(specs, gen.NodeSpec{Kind: gen.KImage, Config: &gen.Ref{N: cfg}, Layers: layers})
+		}
+		parents = append(parents, gen.Ref{N: len(specs) - 1})
+	}
+	specs = append(specs, gen.NodeSpec{Kind: gen.KIndex, Layers: parents})
+	c := copyx.Case{Specs: specs, Root: len(specs) - 1, SrcKind: "memory", DstKind: rapid.SampledFrom([]string{"memory", "oci"}).Draw(t, "dstKind")}
+	c.API = rapid.SampledFrom([]string{"copygraph", "copy"}).Draw(t, "api")
+	c.Conc = rapid.SampledFrom([]int{2, 3, 4, 0}).Draw(t, "conc")
+	c.LatSeed = 2*rapid.IntRange(1, 1<<19).Draw(t, "latSeed") + 1 // odd: heavy
+	c.Callbacks = rapid.Bool().Draw(t, "callbacks")
+	node := rapid.SampledFrom([]int{shared, shared, below}).Draw(t, "faultNode")
+	site := rapid.SampledFrom([]site{{"src", "Fetch", node, []string{"before", "after", "mid"}}, {"dst", "Push", node, []string{"before", "after"}}, {"dst", "Exists", node, []string{"before", "after"}}}).Draw(t, "site")
+	c.Faults = []inst.Fault{{Side: site.Side, Op: site.Op, Node: node, When: rapid.SampledFrom(site.Whens).Draw(t, "when"), Kind: "error"}}
+	return c
+}
+
 func runCase(c copyx.Case) (res vt.Result, fail *vt.Fail) {
 	e, f := copyx.Setup(&c)
 	if f != nil {
@@ -150,6 +209,10 @@ func runCase(c copyx.Case) (res vt.Result, fail *vt.Fail) {
 // Run executes a prepared case: monitored faulty attempt, closure checks, retry.
 func Run(e *copyx.Env, c *copyx.Case, leg string) (res vt.Result, fail *vt.Fail) {
 	d := e.D
+	// half of the latency profiles are heavy (every storage operation takes
+	// 0.2-1.2 ms): a failed node's siblings are then still busy when its other
+	// parents look at it, which is when a premature release shows
+	e.Rec.Heavy = c.LatSeed%2 == 1
 	byKey := map[string]int{}
 	for _, id := range d.CanonIDs() {
 		byKey[gen.TripleKey(d.Nodes[id].Desc)] = id
@@ -263,7 +326,10 @@ func Run(e *copyx.Env, c *copyx.Case, leg string) (res vt.Result, fail *vt.Fail)
 }
 
 func TestMain(m *testing.M) {
-	vt.Main(m, "C02", vt.NewLeg("main", 1200, 4000, 16, genCase, runCase))
+	vt.Main(m, "C02",
+		vt.NewLeg("main", 1200, 4000, 16, genCase, runCase),
+		vt.NewLeg("diamond", 400, 1500, 8, genDiamond, runCase),
+	)
 }
 
 func TestLegs(t *testing.T)   { vt.TestLegs(t) }
